@@ -1009,11 +1009,23 @@ class OffsetMap:
             - delta is the difference between the requested offset and stored offset
               Note: delta can be negative, e.g., when computing slot(a[n-1]) which is `(keccak(slot(a)) - 1) + n`
         """
-        (value, offset) = self._map.get(key >> self._offset_bits, (None, None))
-        if value is None:
-            return (None, None)
-        delta = (key & self._mask) - offset
-        return (value, delta)
+        high, low = key >> self._offset_bits, key & self._mask
+
+        # the stored key may lie in a neighboring bucket, when adding the delta carries into
+        # (or borrows from) the high-order bits; pick the closest stored key
+        best = (None, None)
+        for bucket, base in (
+            (high, 0),
+            (high - 1, 1 << self._offset_bits),
+            (high + 1, -(1 << self._offset_bits)),
+        ):
+            (value, offset) = self._map.get(bucket, (None, None))
+            if value is None:
+                continue
+            delta = low + base - offset
+            if best[0] is None or abs(delta) < abs(best[1]):
+                best = (value, delta)
+        return best
 
     def __setitem__(self, key: int, value: Any):
         """Store a value with its offset.
